@@ -7,6 +7,7 @@ here=$(dirname $(readlink -f "$0"))
 case "$name" in
   RemoveTmpFiles.bounded) pkgdir=internal/fileutil; file=$here/removetmp_test.go.txt; run=TestBoundedRemoveTmpFiles;;
   directories.bounded)    pkgdir=.;                 file=$here/directories_test.go.txt; run=TestBoundedSnapshotDirectories;;
+  codecs.bounded)         pkgdir=.;                 file=$here/codecs_test.go.txt; run=TestBoundedCodecs;;
   *) echo "BOUNDED name=$name cases=0 bound=unknown ok=false detail=unknown-check"; exit 2;;
 esac
 tmp=$(mktemp -d /var/tmp/bounded-XXXXXX)
